@@ -26,7 +26,7 @@ class Replicas(Family):
         return any(e["ev"] == "RepRestart" for e in events) and any(e["ev"] == "Block" and (e.get("groups") or e.get("tmeta") or e.get("failed")) for e in events)
 
     def gen_and_run(self, ctx, prop, tier):
-        n = 24 if tier == "quick" else 900
+        n = 24 if tier == "quick" else 500
         env = dict(os.environ, TMPDIR=ctx.dir)
         traces = []
         for i, (mode, cnt) in enumerate((("", n), ("group", n), ("timed", n // 2), ("xhub", n // 2), ("rules", n // 2))):
